@@ -172,7 +172,14 @@ def cnt_axioms(arr, n):
             z3.ForAll([k], z3.Implies(k >= 0, Cnt(arr, k + 1) == Cnt(arr, k) + z3.If(A.isHom(arr[k]), 1, 0)),
                       patterns=[Cnt(arr, k + 1)]),
             z3.ForAll([k, k2], z3.Implies(z3.And(0 <= k, k <= k2), Cnt(arr, k) <= Cnt(arr, k2)),
-                      patterns=[z3.MultiPattern(Cnt(arr, k), Cnt(arr, k2))])]
+                      patterns=[z3.MultiPattern(Cnt(arr, k), Cnt(arr, k2))]),
+            # consequences of the definition (induction, trusted with it): a count of 1 leaves room for one scalar
+            # operator only, a count of 0 for none
+            z3.ForAll([k, k2], z3.Implies(z3.And(0 <= k, k < n, 0 <= k2, k2 < n, A.isHom(arr[k]), A.isHom(arr[k2]),
+                                                 Cnt(arr, n) == 1), k == k2),
+                      patterns=[z3.MultiPattern(A.isHom(arr[k]), A.isHom(arr[k2]))]),
+            z3.ForAll([k], z3.Implies(z3.And(0 <= k, k < n, Cnt(arr, n) == 0), z3.Not(A.isHom(arr[k]))),
+                      patterns=[A.isHom(arr[k])])]
 
 
 def rules_scenarios(ck, T, prop):
